@@ -10,6 +10,10 @@ CHECKS = {
    text="RecordList.tla (a transcription of Index.Put/Update/Remove/Get and the record-list scan) is model-checked exhaustively for Sorted/PrefixFree/OwnPrefix/Resolves/Count/TouchesOnlyAddressed over all keys of a small alphabet; every reachable model state is then reached on a real index.Index (both pool and disk read paths) and TLC evaluates the same predicates on the REAL record list and REAL Index.Get results after every operation; seeded random histories over larger alphabets extend the bound.",
    note="small-scope hypothesis for the exhaustive part (binary/ternary alphabets, key length 3-4); in-memory primary; TLC and the Json/IOUtils community modules are trusted.",
    ref="DESIGN.md §3.2, §6 C08"),
+ "C14": dict(engine="fcache", technique="TLC model checking of FileCache.tla + replay of every reachable model transition on the real FileCache + TLC trace validation (FileCacheTrace.tla)",
+   text="FileCache.tla (a transcription of filecache.go: LRU list, per-entry refcounts, the removed map, capacity 0 pass-through) is model-checked exhaustively for LentOpen/ClosedOnce/ReleasedClosed/RefsOK/Bound/NoPanic/NoSpuriousErr; every reachable transition of the model is executed on a real FileCache over real files and TLC judges, after every call, the observed usability of every handle (Stat), the descriptor count from /proc/self/fd, Len/Cap, errors and panics with policy-independent rules; seeded random histories over more names/capacities extend the bound.",
+   note="small-scope hypothesis for the exhaustive part (2-3 names, capacities 0..3, <= 8 calls); a closed handle is observed through Stat failing; TLC and community modules trusted. Concurrent use is covered only by the single-lock argument in DESIGN.md, not by this check.",
+   ref="DESIGN.md §3.8, §6 C14"),
 }
 
 NOT_APPLICABLE = [
@@ -48,6 +52,7 @@ def main():
         "hooks": {"guard": "verif (Go build tag)", "enable": "go build -tags verif (the harness in /verif/harness is built with -tags verif against /repo via a replace directive)",
                   "baseline_off_cmd": BASELINE_OFF, "source_commits": [h.split()[0] for h in hooks_commits], "add_only": True},
         "engines": [
+            {"name": "fcache", "path": "harness/cmd/vrun/fcache.go + spec/FileCache.tla + spec/FileCacheTrace.tla", "serves_properties": ["C14"], "kind_free_text": "TLC state-graph replay on real FileCache + TLC trace monitor"},
             {"name": "reclist", "path": "harness/cmd/vrun/reclist.go + spec/RecordList.tla + spec/RecordListTrace.tla", "serves_properties": ["C08"], "kind_free_text": "TLC state-graph replay on real index.Index + TLC trace monitor"},
         ],
         "checks": checks,
